@@ -806,8 +806,8 @@ func (obj *SparseReal32VectorJointIterator) Index() int {
   return obj.idx
 }
 func (obj *SparseReal32VectorJointIterator) Ok() bool {
-  return !(obj.s1 == nil || obj.s1.GetFloat32() == float32(0)) ||
-         !(obj.s2 == nil || obj.s2.GetFloat32() == float32(0))
+  return !(obj.s1 == nil || isNullScalar(obj.s1)) ||
+         !(obj.s2 == nil || isNullScalar(obj.s2))
 }
 func (obj *SparseReal32VectorJointIterator) Next() {
 next:
@@ -892,9 +892,9 @@ func (obj *SparseReal32VectorJoint3Iterator) Index() int {
   return obj.idx
 }
 func (obj *SparseReal32VectorJoint3Iterator) Ok() bool {
-  return !(obj.s1 == nil || obj.s1.GetFloat32() == float32(0)) ||
-         !(obj.s2 == nil || obj.s2.GetFloat32() == float32(0)) ||
-         !(obj.s3 == nil || obj.s3.GetFloat32() == float32(0))
+  return !(obj.s1 == nil || isNullScalar(obj.s1)) ||
+         !(obj.s2 == nil || isNullScalar(obj.s2)) ||
+         !(obj.s3 == nil || isNullScalar(obj.s3))
 }
 func (obj *SparseReal32VectorJoint3Iterator) Next() {
 next:
